@@ -1,11 +1,112 @@
-(* C08  ATT MTU negotiation bounds every PDU. Statements only; proofs in AttSrv/AttSrvProofsC08.v. *)
-From BT Require Import Base.ListX AttDb.AttDbModel NQueue.NQueueModel AttSrv.AttSrvModel AttSrv.AttSrvNotifSpec
-  AttSrv.AttSrvSpecC08 AttSrv.AttSrvProofsC08.
+(* C08  ATT MTU negotiation bounds every PDU.
+   Statements only; proofs in AttSrv/AttSrvProofsC08.v (+ AttSrvFrame.v, AttSrvProofsC01.v).
+
+   Model: AttSrvModel.v: handle_exchange_mtu, negotiated_mtu (= connection_data::negotiated_mtu), att_input
+   (= l2cap_input), att_output (= l2cap_output, which clips to the negotiated MTU since the fix
+   fix/C08-C11-notification-path; the pre-fix witness is corpus/C08/notification_not_clipped.trace). *)
+From BT Require Import Base.ListX AttDb.AttDbModel NQueue.NQueueModel AttSrv.AttSrvModel AttSrv.AttSrvFrame
+  AttSrv.AttSrvNotifSpec AttSrv.AttSrvSpecC08 AttSrv.AttSrvProofsC08 AttSrv.AttSrvNotifExamples.
 Local Open Scope N_scope.
 
-Theorem C08_invalid_exchange_leaves_state :
+(* ---- the specification of the client MTU of connection cid along a history of operations: the value of
+   the last Exchange MTU Request 02 lo hi (length 3) with lo + 256 hi >= 23 on that connection (given a
+   buffer of >= 23 bytes), 23 after a disconnect and initially. Everything else leaves it alone. *)
+Example C08_mtu_history_unfolds :
+  mtu_history 1 23 [OpIn 1 [2; 100; 0] 23; OpIn 0 [2; 200; 0] 23; OpIn 1 [2; 22; 0] 23; OpIn 1 [2; 100] 23;
+                    OpIn 1 [2; 1; 1; 0] 23; OpIn 1 [10; 3; 0] 23] = 100
+  /\ mtu_history 1 23 [OpIn 1 [2; 100; 0] 23; OpDisc 1] = 23
+  /\ mtu_history 1 23 [OpIn 1 [2; 44; 1] 23; OpIn 1 [2; 24; 0] 23] = 24.
+Proof. repeat split; reflexivity. Qed.
+
+(* ---- after ANY history (requests of any kind and length on any connection, notifications, polls,
+   confirmations, CCCD writes, disconnects), for every well formed configuration: the negotiated MTU of every
+   connection is min( server maximum, last valid client MTU ) and at least 23 *)
+Theorem C08_negotiated_mtu_is_min_of_server_and_last_valid_client_mtu :
+  forall c cid ops, wf c -> (cid < n_conns)%nat ->
+    exists k, get_conn (srv_after c (srv_init c) ops) cid = Some k
+              /\ negotiated_mtu c k = N.min (max_mtu c) (mtu_history cid default_att_mtu ops)
+              /\ default_att_mtu <= negotiated_mtu c k.
+Proof. exact negotiated_mtu_history. Qed.
+Print Assumptions C08_negotiated_mtu_is_min_of_server_and_last_valid_client_mtu.
+
+(* ---- ... and every response (l2cap_input) and every notification / indication (l2cap_output) produced in
+   the state after that history is at most min( caller's buffer, that MTU ) bytes long *)
+Theorem C08_every_pdu_bounded_by_negotiated_mtu :
+  forall c ops cid, wf c -> (cid < n_conns)%nat ->
+    let st := srv_after c (srv_init c) ops in
+    let mtu := N.min (max_mtu c) (mtu_history cid default_att_mtu ops) in
+    default_att_mtu <= mtu
+    /\ (forall pdu n st' rs, att_input c st cid pdu n = Some (st', rs) -> len rs <= N.min n mtu)
+    /\ (forall n st' rs, att_output c st cid n = Some (st', rs) -> len rs <= N.min n mtu).
+Proof. exact every_pdu_bounded. Qed.
+Print Assumptions C08_every_pdu_bounded_by_negotiated_mtu.
+
+(* ---- an Exchange MTU Request with a wrong length or a client MTU below 23 is answered with the Error
+   Response 01 02 00 00 04 and changes nothing (any configuration, any state) *)
+Theorem C08_invalid_exchange_rejected_and_ignored :
   forall c st cid pdu b n st' r,
+    5 <= n -> rd pdu 0 = Some 2 ->
     handle_exchange_mtu c st cid pdu b n = Some (st', r) ->
-    (len pdu <> 3 \/ exists m, rd16 pdu 1 = Some m /\ m < default_att_mtu) -> st' = st.
-Proof. exact exchange_mtu_invalid_unchanged. Qed.
-Print Assumptions C08_invalid_exchange_leaves_state.
+    (len pdu <> 3 \/ exists m, rd16 pdu 1 = Some m /\ m < default_att_mtu) ->
+    st' = st /\ snd r = 5 /\ takeN 5 (fst r) = [1; 2; 0; 0; 4].
+Proof. exact exchange_mtu_invalid. Qed.
+Print Assumptions C08_invalid_exchange_rejected_and_ignored.
+
+(* ---- a valid one is answered with 03 <server maximum> and sets the client MTU of this connection only *)
+Theorem C08_valid_exchange_answered_with_server_mtu :
+  forall c st cid lo hi b n k,
+    3 <= len b -> get_conn st cid = Some k -> default_att_mtu <= lo + 256 * hi ->
+    exists b', handle_exchange_mtu c st cid [2; lo; hi] b n
+               = Some (set_conn st cid (mkConn (lo + 256 * hi) (cccd k) (encrypted k) (pairing k) (nq k)), (b', 3))
+               /\ takeN 3 b' = 3 :: le16 (max_mtu c) /\ len b' = len b.
+Proof. exact exchange_mtu_valid. Qed.
+Print Assumptions C08_valid_exchange_answered_with_server_mtu.
+
+(* ---- only an Exchange MTU Request changes the client MTU: one step of the model follows the specification *)
+Theorem C08_step_follows_specification :
+  forall c st o cid k, default_att_mtu <= max_mtu c ->
+    get_conn st cid = Some k -> default_att_mtu <= client_mtu k ->
+    exists k', get_conn (fst (srv_step c st o)) cid = Some k' /\ client_mtu k' = mtu_after cid (client_mtu k) o.
+Proof. exact srv_step_mtu. Qed.
+Print Assumptions C08_step_follows_specification.
+
+(* ---- the trace level statement (the monitor accepts every trace of the model) is NOT proved: clause
+   pdu_exceeds_mtu is the theorem C08_every_pdu_bounded_by_negotiated_mtu, clause mtu_rejected_changed is
+   C08_invalid_exchange_rejected_and_ignored; clause mtu_value (the MTU is also USED: exact lengths of Read
+   Responses and notifications) is tied only. *)
+Definition C08_monitor_accepts_model_full : Prop :=
+  forall c ops, wf c -> monitor08 c (srv_run c (srv_init c) ops) = None.
+
+(* ---- non-vacuity *)
+Example C08_wf_nonvacuous : wf cfg_p4_mtu100 /\ wf cfg_p5_mtu300 /\ wf cfg_n1_mtu23.
+Proof. repeat split; vm_compute; reflexivity. Qed.
+
+(* max_mtu_size< 100 >, characteristic 2a01 of 50 bytes (value handle 6, CCCD 7): at the default MTU the
+   notification is clipped to 23 bytes, after Exchange MTU 64 to 53 bytes; the monitor accepts the model *)
+Example C08_notification_clipped_to_negotiated_mtu :
+  let tr := srv_run cfg_p4_mtu100 (srv_init cfg_p4_mtu100)
+              [OpIn 0 [18; 7; 0; 1; 0] 23; OpNotify true KNotif 1; OpOut 0 100;
+               OpIn 0 [2; 64; 0] 100; OpNotify true KNotif 1; OpOut 0 100; OpIn 0 [2; 5; 0] 100; OpIn 0 [2; 64] 100] in
+  map (fun x => match snd x with OBytes l => len l | _ => 999 end) tr = [1; 999; 23; 3; 999; 53; 5; 5]
+  /\ monitor08 cfg_p4_mtu100 tr = None.
+Proof. split; vm_compute; reflexivity. Qed.
+
+(* the monitor rejects the behaviour before the fix (53 byte notification at MTU 23) and the other clauses *)
+Example C08_monitor_rejects_unclipped_notification :
+  monitor08 cfg_p4_mtu100 [(OpIn 0 [18; 7; 0; 1; 0] 23, OBytes [19]); (OpNotify true KNotif 1, OBits [true; true; true]);
+                           (OpOut 0 100, OBytes (27 :: 6 :: 0 :: repeat 0 50))] = Some (2%nat, t08_pdu_exceeds_mtu).
+Proof. vm_compute. reflexivity. Qed.
+
+Example C08_monitor_rejects_accepted_invalid_exchange :
+  monitor08 cfg_p4_mtu100 [(OpIn 0 [2; 22; 0] 23, OBytes [3; 100; 0])] = Some (0%nat, t08_mtu_rejected_changed)
+  /\ monitor08 cfg_p4_mtu100 [(OpIn 0 [2; 64] 23, OBytes [3; 100; 0])] = Some (0%nat, t08_mtu_rejected_changed)
+  /\ monitor08 cfg_p4_mtu100 [(OpIn 0 [2; 64; 0] 23, OBytes [3; 64; 0])] = Some (0%nat, t08_mtu_value)
+  /\ monitor08 cfg_p4_mtu100 [(OpIn 0 [18; 7; 0; 1; 0] 23, OBytes [19]); (OpNotify true KNotif 1, OBits [true; true; true]);
+                              (OpOut 0 100, OBytes (27 :: 6 :: 0 :: repeat 0 10))] = Some (2%nat, t08_mtu_value).
+Proof. repeat split; vm_compute; reflexivity. Qed.
+
+From BT Require gen.GenAttSrv.
+Example C08_constants_are_the_codes :
+  GenAttSrv.default_att_mtu_size = default_att_mtu /\ GenAttSrv.opcode_exchange_mtu_request = 2
+  /\ GenAttSrv.opcode_notification = 27 /\ GenAttSrv.opcode_indication = 29 /\ GenAttSrv.att_error_invalid_pdu = err_invalid_pdu.
+Proof. repeat split; reflexivity. Qed.
